@@ -22,6 +22,7 @@ type udpTXBurst struct {
 }
 
 func (b *udpTXBurst) add(j *udpJob) {
+	verifTraceUDP(verifUDPBurstAdd, j, j.state, j.state, nil)
 	b.jobs[b.n] = j
 	b.n++
 }
